@@ -115,6 +115,29 @@ func faults01() []fault01 {
 			w.Q.SignQE(w.PKI.Leaf.Key)
 		}},
 		{"authdata-extended-not-rebound", "reject", func(w *world.World, r *mrand.Rand) { w.Q.AuthData = append(w.Q.AuthData, byte(r.Intn(256))) }},
+		// one zero byte moves across the boundary between the QE authentication data and the PCK chain (the parser tolerates
+		// one NUL behind the PEM chain): the four size fields follow, every byte of the quote is still there, but the
+		// authentication data the QE report vouches for is no longer the one carried
+		{"nul-moved-between-authdata-and-chain", "reject", func(w *world.World, r *mrand.Rand) {
+			n := len(w.Q.Chain)
+			switch {
+			case n > 0 && w.Q.Chain[n-1] == 0: // chain P||00, auth D  ->  chain P, auth D||00 and 00||D
+				w.Q.Chain = w.Q.Chain[:n-1]
+				if r.Intn(2) == 0 {
+					w.Q.AuthData = append(append([]byte{}, w.Q.AuthData...), 0)
+				} else {
+					w.Q.AuthData = append([]byte{0}, w.Q.AuthData...)
+				}
+			case len(w.Q.AuthData) > 0 && w.Q.AuthData[0] == 0: // auth 00||D, chain P  ->  auth D, chain P||00
+				w.Q.AuthData = append([]byte{}, w.Q.AuthData[1:]...)
+				w.Q.Chain = append(append([]byte{}, w.Q.Chain...), 0)
+			case len(w.Q.AuthData) > 0 && w.Q.AuthData[len(w.Q.AuthData)-1] == 0: // auth D||00, chain P  ->  auth D, chain P||00
+				w.Q.AuthData = append([]byte{}, w.Q.AuthData[:len(w.Q.AuthData)-1]...)
+				w.Q.Chain = append(append([]byte{}, w.Q.Chain...), 0)
+			default:
+				w.Q.AuthData = append([]byte{0}, w.Q.AuthData...)
+			}
+		}},
 		{"authdata-shortened-not-rebound", "reject", func(w *world.World, r *mrand.Rand) {
 			if len(w.Q.AuthData) == 0 {
 				w.Q.AuthData = []byte{1, 2}
@@ -236,6 +259,16 @@ func c01(x *mon.Ctx) {
 		base := richHonest(r)
 		if wi%2 == 0 && len(base.Q.AuthData) == 0 {
 			base.Q.AuthData = []byte{0xaa, 0xbb, 0xcc}
+			base.Requote()
+		}
+		if wi%3 == 1 { // authentication data that begins / ends with a zero byte, behind a chain without the optional NUL
+			if n := len(base.Q.Chain); n > 0 && base.Q.Chain[n-1] == 0 {
+				base.Q.Chain = base.Q.Chain[:n-1]
+			}
+			if len(base.Q.AuthData) == 0 {
+				base.Q.AuthData = []byte{0, 7, 7, 0}
+			}
+			base.Q.AuthData[0], base.Q.AuthData[len(base.Q.AuthData)-1] = 0, 0
 			base.Requote()
 		}
 		f := fl[fi]
